@@ -53,6 +53,11 @@ def conformance(chk: Check, cov):
         real, res = jitconf.strace_build()
         stub = jitconf.stub_build_events()
         cov["strace_real_build_events"] = real
+        # only the stubbed part (cffi's builder: source rewrite, object file, shared object) is compared; FFCx's own
+        # steps (lock, marker) are the real code in the explorer as well and need no conformance
+        def builder_part(ev):
+            return [e for e in ev if e[0] == "rename" or e[1] in ("M.c.~pid", "M.o", "M.so")]
+        real, stub = builder_part(real), builder_part(stub)
         if real != stub:
             # the model (stub builder) no longer matches cffi's real step sequence: harness, not FFCx
             print("HARNESS-ERROR: stub builder sequence differs from strace of the real build\n real:", real, "\n stub:", stub)
